@@ -137,8 +137,14 @@ enum Act {
     Post { input: InputSpec, provider: Option<ProviderSpec> },
     /// POST /sessions + POST /sessions/{id}/input (router) or create_session + spawn_session (engine)
     Input { input: InputSpec, provider: Option<ProviderSpec> },
-    /// POST /threads/{id}/compaction-auto (router only)
-    Job { stride: u64, max_new: u64 },
+    /// POST /threads/{id}/compaction-auto (router only); `fail`: the artifact store is made unwritable first
+    /// (`.rip/artifacts` replaced by a file), so the summarizer fails at its first checkpoint
+    Job {
+        stride: u64,
+        max_new: u64,
+        #[serde(default)]
+        fail: bool,
+    },
     /// S6: POST /sessions, then POST /sessions/{id}/input TWICE (router only, no provider); `wait` = the
     /// second input is sent after the first run has finished
     Input2 { first: InputSpec, second: InputSpec, wait: bool },
@@ -855,7 +861,13 @@ async fn exec_case(c: &Case, root: &Path) -> Result<Exec, String> {
                         runs_started += 1;
                     }
                 }
-                Act::Job { stride, max_new } => {
+                Act::Job { stride, max_new, fail } => {
+                    if *fail {
+                        let art = ws.join(".rip").join("artifacts");
+                        let _ = std::fs::create_dir_all(ws.join(".rip"));
+                        let _ = std::fs::remove_dir_all(&art);
+                        std::fs::write(&art, b"not a directory").map_err(|e| format!("job fail set-up: {e}"))?;
+                    }
                     let body = json!({"stride_messages": stride, "max_new_checkpoints": max_new, "actor_id": "user", "origin": "c07"});
                     let (st, v) = call_json(&app, req("POST", &format!("/threads/{thread}/compaction-auto"), Some(body))).await;
                     id.status = st;
@@ -1002,7 +1014,8 @@ fn case_term(c: &Case, ex: &Exec, cal: &Calib) -> Option<String> {
                 if njobs != 1 {
                     return None;
                 }
-                let t = format!("AJob {} (JDone {})", 300 + i, id.planned);
+                let fail = matches!(a, Act::Job { fail: true, .. });
+                let t = if fail { format!("AJob {} (JFail 0)", 300 + i) } else { format!("AJob {} (JDone {})", 300 + i, id.planned) };
                 // checkpoints written after this job's spawn frame are the job's (one job per case)
                 let spawn_pos = ex.log.iter().find(|l| l.ty == "continuity_job_spawned" && l.s("job_id") == *j).map(|l| l.pos).unwrap_or(usize::MAX);
                 let o = ex
@@ -1102,6 +1115,12 @@ fn gen_input(r: &mut Rng) -> InputSpec {
     }
 }
 fn gen_case(r: &mut Rng, i: usize) -> Case {
+    if i % 25 == 7 {
+        // a summarizer job that fails: posts through the kernel stub (no tool writes artifacts), then the job
+        let mut acts: Vec<Act> = (0..r.range(1, 3)).map(|_| Act::Post { input: InputSpec::Prompt, provider: None }).collect();
+        acts.push(Act::Job { stride: 1, max_new: r.range(1, 3), fail: true });
+        return Case { engine: false, parallel: false, acts, break_summaries: false };
+    }
     let engine = i % 3 == 2;
     let nacts = *r.pick(&[1usize, 1, 1, 2, 2, 3]);
     let parallel = nacts > 1 && r.chance(2, 3);
@@ -1134,7 +1153,7 @@ fn gen_case(r: &mut Rng, i: usize) -> Case {
         }
     }
     if !engine && r.chance(1, 5) {
-        acts.push(Act::Job { stride: r.range(1, 2), max_new: r.range(1, 3) });
+        acts.push(Act::Job { stride: r.range(1, 2), max_new: r.range(1, 3), fail: false });
     }
     // (the preamble post would consume the app-level default provider's first script)
     let break_summaries = !engine && !default_used && r.chance(1, 7);
@@ -1165,9 +1184,11 @@ fn corpus() -> Vec<Case> {
         Case { break_summaries: false, engine: true, parallel: false, acts: vec![Act::Post { input: InputSpec::Prompt, provider: Some(p(vec![text_req(vec![Sse::Created { id: true }, Sse::Call(Tool::Ls), Sse::Call(Tool::BashEcho)]), text_req(vec![Sse::Delta])], false, Choice::OnlyLs)) }] },
         Case { break_summaries: false, engine: true, parallel: false, acts: vec![Act::Post { input: InputSpec::Prompt, provider: Some(p(vec![text_req(vec![Sse::Delta])], false, Choice::Invalid)) }] },
         // parallel runs on one thread + a job
-        Case { break_summaries: false, engine: false, parallel: true, acts: vec![post(vec![text_req(vec![Sse::Created { id: true }, Sse::Call(Tool::BashEcho)]), text_req(vec![Sse::Delta])]), post(vec![text_req(vec![Sse::Delta])]), Act::Post { input: InputSpec::Prompt, provider: None }, Act::Job { stride: 1, max_new: 2 }] },
+        Case { break_summaries: false, engine: false, parallel: true, acts: vec![post(vec![text_req(vec![Sse::Created { id: true }, Sse::Call(Tool::BashEcho)]), text_req(vec![Sse::Delta])]), post(vec![text_req(vec![Sse::Delta])]), Act::Post { input: InputSpec::Prompt, provider: None }, Act::Job { stride: 1, max_new: 2, fail: false }] },
         // context compilation fails (summary artifact gone): the run ends with context_compile_failed, run_ended follows
         Case { break_summaries: true, engine: false, parallel: false, acts: vec![post(vec![text_req(vec![Sse::Delta])]), Act::Post { input: InputSpec::Prompt, provider: None }, Act::Post { input: InputSpec::ToolEnv { tool: Tool::WriteOk, tmo: 0 }, provider: None }] },
+        // a job whose summarizer fails: job_ended(failed), once
+        Case { break_summaries: false, engine: false, parallel: false, acts: vec![Act::Post { input: InputSpec::Prompt, provider: None }, Act::Job { stride: 1, max_new: 2, fail: true }] },
         // S6: two inputs on one session
         Case { break_summaries: false, engine: false, parallel: false, acts: vec![Act::Input2 { first: InputSpec::Prompt, second: InputSpec::Prompt, wait: true }] },
         Case { break_summaries: false, engine: false, parallel: false, acts: vec![Act::Input2 { first: InputSpec::ToolEnv { tool: Tool::BashEcho, tmo: 0 }, second: InputSpec::Prompt, wait: false }, Act::Post { input: InputSpec::Prompt, provider: None }] },
@@ -1242,7 +1263,7 @@ fn label(c: &Case) -> Vec<String> {
                     v.push("provider=none".into());
                 }
             }
-            Act::Job { .. } => v.push("job".into()),
+            Act::Job { fail, .. } => v.push(if *fail { "job-fails".into() } else { "job".into() }),
             Act::Input2 { wait, .. } => v.push(format!("double-input-wait={wait}")),
         }
     }
